@@ -36,6 +36,7 @@ const (
 	vfStart = 1
 	vfWrite = 2
 	vfStop  = 3
+	vfCheck = 4 // CheckCanRecord, as the motion processor asks before every start
 )
 
 type vfOp struct {
@@ -66,6 +67,7 @@ type vfThrCase struct {
 	Cfg       vfThrCfg `json:"cfg"`
 	Ops       []vfOp   `json:"ops"`
 	StartFail []int    `json:"start_fail,omitempty"` // ordinals of base StartRecording calls that fail
+	CheckFail []int    `json:"check_fail,omitempty"` // ordinals of base CheckCanRecord calls that fail
 	Sessions  bool     `json:"sessions"`             // caller keeps to start; write*; stop
 }
 
@@ -86,6 +88,8 @@ type vfBase struct {
 	req    int
 	starts int
 	fail   map[int]bool
+	checks    int
+	checkFail map[int]bool
 }
 
 var vfInjected = errors.New("injected start failure")
@@ -107,7 +111,15 @@ func (b *vfBase) WriteFrame(f *cptvframe.Frame) error {
 	b.calls = append(b.calls, vfBaseCall{C: 'W', At: b.clock.now, Req: b.req, F: f})
 	return nil
 }
-func (b *vfBase) CheckCanRecord() error { return nil }
+func (b *vfBase) CheckCanRecord() error {
+	n := b.checks
+	b.checks++
+	b.calls = append(b.calls, vfBaseCall{C: 'K', At: b.clock.now, Req: b.req, Err: b.checkFail[n]})
+	if b.checkFail[n] {
+		return vfInjected
+	}
+	return nil
+}
 
 var _ recorder.Recorder = (*vfBase)(nil)
 
@@ -168,9 +180,12 @@ type vfThrRun struct {
 
 func vfRunThrottle(c vfThrCase) *vfThrRun {
 	clock := &vfClock{now: time.Date(2021, 1, 1, 0, 0, 0, 0, time.UTC)}
-	base := &vfBase{clock: clock, fail: map[int]bool{}}
+	base := &vfBase{clock: clock, fail: map[int]bool{}, checkFail: map[int]bool{}}
 	for _, i := range c.StartFail {
 		base.fail[i] = true
+	}
+	for _, i := range c.CheckFail {
+		base.checkFail[i] = true
 	}
 	ev := &vfEvents{base: base}
 	cam := vfCam{4, 4, c.Cfg.FPS}
@@ -224,6 +239,8 @@ func vfRunThrottle(c vfThrCase) *vfThrRun {
 			}
 			req(vfStop, func() error { return th.StopRecording() }, nil, nil, 0)
 			inSession = false
+		case vfCheck:
+			req(vfCheck, func() error { return th.CheckCanRecord() }, nil, nil, 0)
 		}
 	}
 	return run
@@ -300,7 +317,7 @@ func vfThrCaseOK(c vfThrCase) bool {
 	}
 	total := 0
 	for _, o := range c.Ops {
-		if o.K < 0 || o.K > 3 || o.Dt < 0 || o.N < 0 || o.N > 2000 {
+		if o.K < 0 || o.K > 4 || o.Dt < 0 || o.N < 0 || o.N > 2000 {
 			return false
 		}
 		total += o.N + 1
@@ -535,6 +552,18 @@ func vfGenC06(t *rapid.T) vfThrCase {
 	} else {
 		c.Ops = vfGenThrOps(t, c.Cfg, true)
 	}
+	// storage checks at arbitrary moments, some of them failing
+	if rapid.Bool().Draw(t, "checks") {
+		var ops []vfOp
+		for _, o := range c.Ops {
+			if rapid.IntRange(0, 4).Draw(t, "checkhere") == 0 {
+				ops = append(ops, vfOp{K: vfCheck})
+			}
+			ops = append(ops, o)
+		}
+		c.Ops = ops
+		c.CheckFail = rapid.SliceOfN(rapid.IntRange(0, 12), 0, 4).Draw(t, "checkfail")
+	}
 	c.StartFail = []int{}
 	n := rapid.SampledFrom([]int{0, 0, 1, 2, 3}).Draw(t, "nfail")
 	for i := 0; i < n; i++ {
@@ -615,6 +644,7 @@ func vfRunC06(c vfThrCase) *kit.Result {
 	fileFrames := 0
 	remaining := int64(B) // exact counter for frozen-clock histories
 	cuts, restarts, suppressed, failedStarts := 0, 0, 0, 0
+	checksSeen, checkWhileThrottled := 0, false
 	cutThenRestart, failWhileThrottled := false, false
 	throttledOnce := false
 	shape := func(cs []vfBaseCall) string {
@@ -634,10 +664,25 @@ func vfRunC06(c vfThrCase) *kit.Result {
 		now := run.reqAt[q]
 		lo, hi := bounds(now)
 		fail := func(format string, a ...interface{}) *kit.Result {
-			r.Failf("caller request %d (%s at +%v, file open=%v, budget in [%.2f, %.2f], min length %d): %s", q, []string{"", "start", "write", "stop"}[k], now.Sub(run.reqAt[0]), open, lo, hi, minLen, fmt.Sprintf(format, a...))
+			r.Failf("caller request %d (%s at +%v, file open=%v, budget in [%.2f, %.2f], min length %d): %s", q, []string{"", "start", "write", "stop", "storage check"}[k], now.Sub(run.reqAt[0]), open, lo, hi, minLen, fmt.Sprintf(format, a...))
 			return r
 		}
 		switch k {
+		case vfCheck:
+			// the storage check is the wrapped recorder's, whatever the state of the bucket
+			if sh != "K" {
+				return fail("calls on the wrapped recorder %q, want exactly one storage check forwarded", sh)
+			}
+			if cs[0].Err != run.reqErr[q] {
+				return fail("the wrapped recorder's storage check failed=%v but the caller was told failed=%v", cs[0].Err, run.reqErr[q])
+			}
+			if evPer[q] != 0 {
+				return fail("throttle event on a storage check")
+			}
+			checksSeen++
+			if hi < float64(minLen) {
+				checkWhileThrottled = true
+			}
 		case vfStart:
 			curBg, curThr = run.bgs[q], run.thrs[q]
 			switch sh {
@@ -802,6 +847,10 @@ func vfRunC06(c vfThrCase) *kit.Result {
 	if frozen {
 		r.Class("frozen_clock")
 	}
+	if checkWhileThrottled {
+		r.Class("storage_check_while_throttled")
+	}
+	_ = checksSeen
 	r.NT = cutThenRestart || failWhileThrottled
 	return r
 }
